@@ -12,7 +12,9 @@ ZDEC_FUNCS = [r'^Scanner::', r'^parse_', r'^is_unit_char$', r'^is_partial_date$'
 PROPS = {
     'C03': dict(
         title='Decoders are total',
-        verus=[('u_zparse', ZDEC_FUNCS)],
+        verus=[('u_zparse', ZDEC_FUNCS),
+               ('u_jdec', [r'^JsonValueDecoderVisitor::visit_map$', r'^JsonValueDecoderVisitor::visit_seq$']),
+               ('u_getters', [r'^parse_ref$', r'^parse_symbol$', r'^parse_uri$', r'^parse_coord$', r'^parse_xstr$', r'^parse_date$', r'^parse_time$', r'^parse_datetime$', r'^parse_number$'])],
         kani=[dict(harness='k_scanner_classes', klass='complete', schema=['u8'], family=None, target='Scanner::is_* byte classes assumed by the units'),
               dict(harness='k_u8_classes', klass='complete', schema=['u8'], family=None, target='u8::is_ascii_* assumed by the prelude'),
               dict(harness='k_reader_chunks_small', klass='bounded', bound='2-byte stream, <= 1 Interrupted result, symbolic chunk lengths',
@@ -24,8 +26,9 @@ PROPS = {
         level_text=('Proof (Verus, unbounded): panic-freedom and termination of the Zinc scanner, scalar parsers, lexer and '
                     'value/list/dict/grid parsers including the lazy row iterator, for all byte strings and every reader '
                     'behaviour allowed by the reader contract; recursion depth bounded by the nesting budget '
-                    '(decreases MAX_NESTING_DEPTH - depth).'),
-        not_decided=('serde_json (Hayson driver) and the visit_map/visit_seq impls; panics inside chrono, f64::from_str, '
+                    '(decreases MAX_NESTING_DEPTH - depth).'
+                    ' Hayson side: the object and array visitors of the decoder (visit_map, visit_seq) and the per-kind decoders parse_ref / symbol / uri / coord / xstr / date / time / datetime / number are verified on their real bodies, hence panic-free and terminating for every member list serde hands over.'),
+        not_decided=('serde_json itself (the Hayson driver: its text scanner and 128-level recursion limit) and the Hayson parse_grid; panics inside chrono, f64::from_str, '
                      'get_unit (assumed none); the chrono tail of parse_datetime (trusted contract; parse_time_zone is verified, with Duration/FixedOffset of chrono seen through their seconds); '
                      'allocation failure; that '
                      'MAX_NESTING_DEPTH frames fit the native stack.'),
